@@ -9,6 +9,9 @@ mod gen;
 mod c01;
 mod c06;
 mod c07;
+mod c09;
+mod c15;
+mod c19;
 mod c18;
 
 use std::io::{BufRead, Write};
@@ -26,6 +29,9 @@ fn exec_line(line: &str) -> String {
             "C01" => c01::exec(&op, &a),
             "C06" => c06::exec(&op, &a),
             "C07" => c07::exec(&op, &a),
+            "C09" => c09::exec(&op, &a),
+            "C15" => c15::exec(&op, &a),
+            "C19" => c19::exec(&op, &a),
             "C18" => c18::exec(&op, &a),
             _ => format!("harness-unknown-property {}", prop),
         }
@@ -70,6 +76,9 @@ fn main() {
                 "C01" => c01::generate(&mut rng, tier, shard, nshards, &mut emit),
                 "C06" => c06::generate(&mut rng, tier, shard, nshards, &mut emit),
                 "C07" => c07::generate(&mut rng, tier, shard, nshards, &mut emit),
+                "C09" => c09::generate(&mut rng, tier, shard, nshards, &mut emit),
+                "C15" => c15::generate(&mut rng, tier, shard, nshards, &mut emit),
+                "C19" => c19::generate(&mut rng, tier, shard, nshards, &mut emit),
                 "C18" => c18::generate(&mut rng, tier, shard, nshards, &mut emit),
                 _ => { eprintln!("unknown property {}", prop); std::process::exit(2); }
             }
